@@ -323,3 +323,7 @@ class PickleProxy:
     def dumps(self, obj, *a, **k):
         self.hook(self.site, 'dumps', obj)
         return real_pickle.dumps(obj, *a, **k)
+
+    def __getattr__(self, name):
+        # everything else of the module, untouched (a seam must not be narrower than what it replaces)
+        return getattr(real_pickle, name)
